@@ -1,6 +1,7 @@
 import Zc.Proofs.Wire.Message
 import Zc.Proofs.Wire.Total
 import Zc.Model.Wire.Send
+import Zc.Proofs.Wire.Lone
 import Zc.GenFacts.Send
 /-! # C14 — outgoing messages respect size limits and account for every section entry
 
@@ -206,6 +207,19 @@ theorem C14_tc_bit (m : Msg) (hwf : WFMsg m) (hfit : FitAll m) (pks : List Bytes
       decide
     · intro w hw; rw [hb w hw]; exact hno
 
+/-- **"… unless it carries a single entry that cannot be smaller".**  A datagram of more than 1460 bytes is exactly as long as
+the datagram that carries one entry of the message *alone*: the 12-byte header and that entry written at offset 12 with an
+empty names table (`questionAloneSize` / `recordAloneSize`) — nothing else is in it, and no datagram could carry that entry
+in fewer bytes.  Holds for every message for which the builder returns (no well-formedness needed: the 8966-byte allowance
+is only ever granted to the first entry tried in a fresh packet).  With `C14_sizes` (`entryCount w = 1`) this is the clause
+at full strength. -/
+theorem C14_large_is_lone_entry (m : Msg) (pks : List Bytes) (h : packets m = .ok pks) :
+    ∀ p ∈ pks, 1460 < p.length → LoneSize m p.length := by
+  intro p hp hbig
+  rcases packetsLoop_lone m _ _ pks h p hp with h1 | h1
+  · omega
+  · exact h1
+
 /-! ### the send path: `Zeroconf.async_send` (anchored mechanism "async_send drops packets above the absolute limit") -/
 
 /-- nothing is dropped when every datagram is at most 8966 bytes long — a datagram of **exactly** 8966 bytes leaves -/
@@ -267,6 +281,10 @@ example : WFMsg exBig ∧ FitAll exBig :=
    ⟨by decide +kernel, by decide +kernel, by decide +kernel, by decide +kernel⟩⟩
 example : (packets exBig).toOption.map (fun pks => pks.map (fun p => (decide (1460 < p.length), (Strict.decode p).map (fun w => (w.flags, entryCount w))))) =
     some [(true, some (0x8400, 1))] := by decide +kernel
+
+/-- … and that datagram is exactly as long as the one entry alone (`C14_large_is_lone_entry` observed) -/
+example : (packets exBig).toOption.map (fun pks => pks.map List.length) =
+    some [recordAloneSize true (⟨[97] :: exT, 16, 1, true, 4500, 0, .txt (exBlob 5000 1)⟩, 0)] := by decide +kernel
 
 /-- a response whose single TXT answer makes a datagram of **exactly 8966 bytes** (12 header + 11 owner name + 10 fixed +
 8933 rdata) followed by a small second answer: two datagrams, both leave `async_send` -/
